@@ -131,6 +131,7 @@ structure PState where
   isLocal   : Bool         -- `<locals>` in the qualname: force_clear / clear_refs (base.py:84,249,261-267)
   ignoreErr : Bool         -- functions resolve with ignore_errors=True (func.py:942)
   selfVis   : Bool         -- ClassParser.globals injects the class's own name (cls.py:93-112)
+  base      : Option Name  -- the data class it inherits its first fields from (cls.py:223-257)
   deriving Repr
 
 structure State where
@@ -142,10 +143,11 @@ structure State where
 structure Cfg where
   uniqueKeys   : Bool     -- fixes/C17-multiuse.patch: every distinct ForwardRef object is registered
   resolveUnion : Bool     -- fixes/C17-union-resolve.patch: resolution descends into Optional/Union args
+  inheritRefs  : Bool     -- fixes/C17-inherited-refs.patch: a subclass resolves its base's pending refs first
   deriving Repr
 
-def Cfg.fixed : Cfg := ⟨true, true⟩
-def Cfg.legacy : Cfg := ⟨false, false⟩
+def Cfg.fixed : Cfg := ⟨true, true, true⟩
+def Cfg.legacy : Cfg := ⟨false, false, false⟩
 
 def lookupCell (c : Cell) : List (Cell × Ty) → Option Ty
   | [] => none
@@ -255,6 +257,7 @@ structure Decl where
   isLocal : Bool := false     -- defined inside a function (qualname contains `<locals>`)
   bound   : Bool := true      -- the name is (re)bound in the module namespace after creation
   isFunc  : Bool := false     -- @utype.parse function: field 0 = parameter, field 1 = return
+  base    : Option Name := none   -- `class K(Base)`: Base's fields come first (shared ParserField objects)
   deriving Repr
 
 def mkFields (cells : List (Cell × Ty)) (vis : Name → Bool) (isFunc : Bool)
@@ -272,7 +275,7 @@ def define (cfg : Cfg) (s : State) (k : Name) (d : Decl) : State :=
   let vis := visOf s self
   let (fields, ev, rg) := mkFields s.cells vis d.isFunc d.fields
   let ps : PState := { fields := fields, pending := registerAll cfg [] rg, isLocal := d.isLocal,
-                       ignoreErr := d.isFunc, selfVis := !d.isFunc }
+                       ignoreErr := d.isFunc, selfVis := !d.isFunc, base := d.base }
   { visible := if d.bound then k :: s.visible else s.visible
     -- force_clear (rule.py:74-76): a local class un-evaluates what it has just evaluated
     cells := if d.isLocal then s.cells else ev.reverse ++ s.cells
@@ -319,8 +322,10 @@ def resolveLoop (vis : Name → Bool) (ignoreErr : Bool) : List Pending → List
       { r with kept := p :: r.kept }
     else ⟨p :: ps, cells, false, [], true⟩      -- NameError propagates, nothing after the loop runs
 
-/-- `BaseParser.resolve_forward_refs` for parser `k`; `false` = NameError raised. -/
-def resolveParser (cfg : Cfg) (s : State) (k : Name) : State × Bool :=
+/-- `BaseParser.resolve_forward_refs` for parser `k` alone; `false` = NameError raised.  The field
+pass (base.py:256-258) runs over `self.fields`, which for a subclass includes the ParserField objects
+it shares with its base. -/
+def resolveOwn (cfg : Cfg) (s : State) (k : Name) : State × Bool :=
   match lookupP k s.parsers with
   | none => (s, true)
   | some ps =>
@@ -331,9 +336,42 @@ def resolveParser (cfg : Cfg) (s : State) (k : Name) : State × Bool :=
         ({ s with cells := r.cells, parsers := setP k { ps with pending := r.kept } s.parsers }, false)
       else
         let fields := if r.resolved then ps.fields.map (fun p => (p.1, resolveTy cfg r.cells p.2)) else ps.fields
+        let parsers1 := setP k { ps with pending := r.kept, fields := fields } s.parsers
+        let parsers2 := match ps.base with
+          | none => parsers1
+          | some b => match lookupP b parsers1 with
+            | none => parsers1
+            | some pb =>
+              if r.resolved then
+                setP b { pb with fields := pb.fields.map (fun p => (p.1, resolveTy cfg r.cells p.2)) } parsers1
+              else parsers1
         -- ForwardRef objects of local classes are un-evaluated again (base.py:261-267)
         let cells := if ps.isLocal then r.cells.filter (fun p => !r.popped.contains p.1) else r.cells
-        ({ s with cells := cells, parsers := setP k { ps with pending := r.kept, fields := fields } s.parsers }, true)
+        ({ s with cells := cells, parsers := parsers2 }, true)
+
+/-- `ClassParser.resolve_forward_refs` (cls.py, after fixes/C17-inherited-refs.patch): the base's
+parser first, then the class's own.  (Modelled for one level: a base that has a base itself is
+outside the fragment, `Reaches` says so.) -/
+def resolveParser (cfg : Cfg) (s : State) (k : Name) : State × Bool :=
+  match lookupP k s.parsers with
+  | none => (s, true)
+  | some ps =>
+    match ps.base with
+    | none => resolveOwn cfg s k
+    | some b =>
+      if cfg.inheritRefs then
+        match resolveOwn cfg s b with
+        | (s1, false) => (s1, false)
+        | (s1, true) => resolveOwn cfg s1 k
+      else resolveOwn cfg s k
+
+/-- `self.fields` of a class: the base's fields (cls.py:232-252), then its own -/
+def allFields (parsers : List (Name × PState)) (ps : PState) : List (Nat × Ty) :=
+  (match ps.base with
+   | none => []
+   | some b => match lookupP b parsers with
+     | none => []
+     | some pb => pb.fields) ++ ps.fields
 
 /-! ### Parsing (state is threaded: converting to a data class triggers *its* lazy resolution) -/
 
@@ -431,7 +469,7 @@ def parseTy (cfg : Cfg) (leaf : Val → Option Val) : Nat → State → Ty → V
               match lookupP k s1.parsers with
               | none => (s1, .perr)
               | some ps =>
-                match fieldsS (fun s t x => parseTy cfg leaf fuel s t x) kvs s1 ps.fields with
+                match fieldsS (fun s t x => parseTy cfg leaf fuel s t x) kvs s1 (allFields s1.parsers ps) with
                 | (s2, .inr fs) => (s2, .ok (.inst k fs))
                 | (s2, .inl e) => (s2, e)
         | _ => (s, .perr)
@@ -531,8 +569,15 @@ def lookupD (k : Name) : List (Name × Decl) → Option Decl
   | (k', d) :: rest => if k' == k then some d else lookupD k rest
 
 /-- the declarations made so far, every reference read directly -/
+def directFields (defs : List (Name × Decl)) (d : Decl) : List (Nat × Ty) :=
+  (match d.base with
+   | none => []
+   | some b => match lookupD b defs with
+     | none => []
+     | some db => db.fields.map fun p => (p.1, p.2.direct)) ++ d.fields.map fun p => (p.1, p.2.direct)
+
 def envOf (defs : List (Name × Decl)) : Env :=
-  fun k => (lookupD k defs).map fun d => d.fields.map fun p => (p.1, p.2.direct)
+  fun k => (lookupD k defs).map (directFields defs)
 
 def specRun (leaf : Val → Option Val) (fuel : Nat) : List (Name × Decl) → List Op → List Outcome
   | _, [] => []
